@@ -107,7 +107,7 @@ def enumerate_cases(sc):
     if r.error or r.violated:
         raise Broken("StrEnum failed: %s %s" % (r.violated, (r.error or "")[:2000]))
     out = {}
-    for n in ("SET", "SET4", "READER", "CMP", "ERRPREFIX"):
+    for n in ("SET", "SET4", "READER", "CMP", "COPY", "UTF8", "ERRPREFIX"):
         p = os.path.join(d, n + ".json")
         if not os.path.exists(p):
             raise Broken("StrEnum did not write %s" % p)
@@ -261,6 +261,7 @@ def campaign(chk, build, sc, name, cases, cfg="StrTrace.cfg", shards=8, stats=No
             raise Broken("StrTrace consumed %d of %d events of %s" % (r.depth - 1, len(evs), log))
         accepted += len(ids) - len(rejected)
         if stats is not None:
+            stats["rejected_ids"] |= set(rejected)
             stats["steps"] += nsteps
             cur = None
             for e in evs:
@@ -400,6 +401,8 @@ def sweep(chk, build, sc, planes):
 # self test of the binding (soundness rule 5): corrupted logs must be rejected
 # --------------------------------------------------------------------------
 def selftest(chk, sc, good_log):
+    # material: histories of this run that TLC accepts (on a defective implementation some are not)
+    r0, rejected0 = validate_log(sc, good_log)
     evs = parse_log(good_log)
     hists, cur = [], []
     for e in evs:
@@ -409,8 +412,13 @@ def selftest(chk, sc, good_log):
         cur.append(e)
     if cur:
         hists.append(cur)
-    hists = [h for h in hists if len(h) >= 8 and any(any(c >= 128 for c in reg) for reg in h[-1]["cp"])]
+    hists = [h for h in hists if h[0].get("e") == "Reset" and h[0]["id"] not in rejected0 and len(h) >= 8
+             and any(any(c >= 128 for c in reg) for reg in h[-1]["cp"])]
     if len(hists) < 8:
+        if chk.violations or chk.known_hits:
+            # the implementation is so far off that hardly any history is accepted: the violations speak for themselves
+            chk.cov["selftest_corruptions_rejected"] = "skipped: fewer than 8 accepted histories to corrupt"
+            return
         raise Broken("self test: not enough material in %s" % good_log)
 
     def mut_bytes(h):
@@ -536,10 +544,19 @@ def build_cases(chk, en, hist_main, hist_nul, hist_long):
     cmpc = []
     for k, (x, y) in enumerate(pairs):
         cmpc.append(mk("cmp", [[("FromList", "String", "FromBytes")[k % 2], [1], x], ["FromList", [2], y], ["Cmp", [1, 2], []], ["Cmp", [2, 1], []], ["Cmp", [1, 1], []]]))
+    copyc = []
+    for s_, at, a, b in en["COPY"]:
+        form = 2 if (a, b) != (0, len(s_)) else chk.rng.randrange(3)
+        form = 1 if form == 2 and b == len(s_) and chk.rng.randrange(2) else form
+        copyc.append(mk("copy", [["FromList", [1], s_], ["CopyBang", [1, at, 1, form, a, b], []], ["ToUtf8", [1, 0, 0, len(s_)], []]]))
+        copyc.append(mk("copy", [["FromList", [1], s_], ["String", [2], s_[::-1]], ["CopyBang", [1, at, 2, form, a, b], []], ["CopyBang", [2, at, 16, 2, 0, min(4, len(s_) - at)], []]]))
+    for src_, i, j, bi, bj in en["UTF8"]:
+        copyc.append(mk("utf8", [["FromUtf8", [1, src_, bi, bj], []], ["ToUtf8", [src_, 2, i, j], []], ["ToList", [src_, 2, i, j], []],
+                                 ["Copy", [2, src_, 2, i, j], []], ["Substring", [3, src_, i, j], []]]))
     main = [mk("hist", h) for h in hist_main]
     nul = [mk("nul", h) for h in hist_nul]
     lng = [mk("long", h) for h in hist_long]
-    return sets, reader, errc, cmpc, main, nul, lng
+    return sets, reader, errc, cmpc + copyc, main, nul, lng
 
 
 def run():
@@ -563,12 +580,12 @@ def run():
         sets, reader, errc, cmpc, main, nul, lng = build_cases(chk, en, hist_main, hist_nul, hist_long)
         groups = [("set", sets, "StrTrace.cfg"), ("reader", reader, "StrTrace.cfg"), ("err", errc, "StrTrace.cfg"), ("cmp", cmpc, "StrTrace.cfg"),
                   ("hist", main, "StrTrace.cfg"), ("nul", nul, "StrTrace.cfg"), ("long", lng, "StrTraceLong.cfg")]
-        stats = {"steps": 0, "ops": collections.Counter(), "errsteps": 0, "nonascii_ids": set(), "set_ok": 0}
+        stats = {"steps": 0, "ops": collections.Counter(), "errsteps": 0, "nonascii_ids": set(), "rejected_ids": set(), "set_ok": 0}
         acc = {}
         phase = chk.cov.setdefault("phase_seconds", {})
         phase["build+generate"] = round(time.time() - chk.t0, 1)
         pool2 = ThreadPoolExecutor(max_workers=8)
-        allstats = {name: {"steps": 0, "ops": collections.Counter(), "errsteps": 0, "nonascii_ids": set(), "set_ok": 0} for name, _, _ in groups}
+        allstats = {name: {"steps": 0, "ops": collections.Counter(), "errsteps": 0, "nonascii_ids": set(), "rejected_ids": set(), "set_ok": 0} for name, _, _ in groups}
 
         def timed(name, cases, cfg):
             t0 = time.time()
@@ -586,7 +603,7 @@ def run():
             acc[name] = futs[name].result()
             st = allstats[name]
             stats["steps"] += st["steps"]; stats["errsteps"] += st["errsteps"]; stats["set_ok"] += st["set_ok"]
-            stats["ops"].update(st["ops"]); stats["nonascii_ids"] |= st["nonascii_ids"]
+            stats["ops"].update(st["ops"]); stats["nonascii_ids"] |= st["nonascii_ids"]; stats["rejected_ids"] |= st["rejected_ids"]
         # ---- vacuity guards on what the implementation was actually driven through
         missing = [op for op in ALL_OPS if stats["ops"][op] == 0]
         if missing:
@@ -627,7 +644,8 @@ def run():
         chk.cov["error_class_steps"] = stats["errsteps"]
         chk.cov["ops_exercised"] = dict(stats["ops"])
         chk.cov["evaluations"] = total_cases + len(planes) + sum(variants.values())
-        distinct = {hashlib.sha1(json.dumps(c.steps).encode()).hexdigest() for _, cases, _ in groups for c in cases if c.id in stats["nonascii_ids"]}
+        distinct = {hashlib.sha1(json.dumps(c.steps).encode()).hexdigest() for _, cases, _ in groups for c in cases
+                    if c.id in stats["nonascii_ids"] and c.id not in stats["rejected_ids"]}
         chk.cov["distinct_nontrivial"] = len(distinct)
         chk.cov["rule"] = ("a case = one Reset-delimited operation history executed on the real interpreter and accepted step by step by TLC against Str.tla "
                            "(set: TLC-enumerated construct+string-set!+string-ref for every string of length<=3 over the 8 boundary code points x position x replacement; "
